@@ -23,10 +23,12 @@ import (
 	"context"
 	"encoding/json"
 	"fmt"
+	"reflect"
 	"sort"
 	"sync"
 	"sync/atomic"
 	"time"
+	"unsafe"
 
 	"github.com/deckhouse/deckhouse/pkg/log"
 	"github.com/flant/kube-client/fake"
@@ -48,6 +50,7 @@ import (
 const (
 	modeStart     = "start"
 	batchExisting = "existing"
+	batchUnlock   = "unlock"
 	objNamespace  = "n"
 )
 
@@ -73,6 +76,8 @@ type plan struct {
 	existing map[int]int // resource id -> state index, at monitor creation
 	cluster  []clusterOp
 	ops      []Ev // the watch events of the operations: what the informer must deliver
+	// window cases: the number of operations made before the harness unlocks the events
+	unlockAt int
 }
 
 func startPlan(in Input) plan {
@@ -87,7 +92,14 @@ func startPlan(in Input) plan {
 	for id, st := range pl.existing {
 		cur[id] = st
 	}
+	pl.unlockAt = -1
 	for _, e := range in.History {
+		if e.Batch == batchUnlock {
+			if pl.unlockAt < 0 {
+				pl.unlockAt = len(pl.cluster)
+			}
+			continue
+		}
 		if e.Batch == batchExisting || !ok(e) {
 			continue
 		}
@@ -109,6 +121,9 @@ func startPlan(in Input) plan {
 			pl.ops = append(pl.ops, Ev{Type: "Modified", State: e.State})
 			cur[id] = e.State
 		}
+	}
+	if pl.unlockAt < 0 {
+		pl.unlockAt = len(pl.cluster)
 	}
 	return pl
 }
@@ -326,6 +341,17 @@ func runStart(ctx context.Context, in Input, mc *kem.MonitorConfig) Obs {
 		prevOps = *total
 	}
 
+	// the cached objects.  Monitor.Snapshot() - resourceInformer.getCachedObjects - DROPS the saved
+	// events while the events are locked (it is the Synchronization snapshot), so inside the
+	// window of a window case the cache is read directly (rawCache: no call of /repo's code, the
+	// map is read from the informer's own goroutine, the only writer); everywhere else through
+	// Monitor.Snapshot()
+	snap := func() []kemtypes.ObjectAndFilterResult {
+		if in.Win && !o.Unlocked {
+			return rawCache(vm.M.ResourceInformers[0])
+		}
+		return vm.M.Snapshot()
+	}
 	// runs in the informer's goroutine at the end of every handleWatchEvent
 	rec.on.Store(func() {
 		mu.Lock()
@@ -344,7 +370,7 @@ func runStart(ctx context.Context, in Input, mc *kem.MonitorConfig) Obs {
 			}
 			prevOps = *total
 		}
-		snapshot := vm.M.Snapshot()
+		snapshot := snap()
 		nowPtr := map[string]*unstructured.Unstructured{}
 		var replaced, removed []string
 		for _, c := range snapshot {
@@ -443,7 +469,30 @@ func runStart(ctx context.Context, in Input, mc *kem.MonitorConfig) Obs {
 		return o
 	}
 
-	vm.M.EnableKubeEventCb()
+	// window cases: the monitor is started with its events locked; the unlock comes later
+	if !in.Win {
+		vm.M.EnableKubeEventCb()
+	}
+	// the unlock (the harness's goroutine; no delivery is under way: every operation is awaited)
+	unlock := func() {
+		vm.M.EnableKubeEventCb()
+		mu.Lock()
+		defer mu.Unlock()
+		events := vm.Events()
+		o.Flushed = []Fired{}
+		for _, ke := range events[taken:] {
+			f := Fired{Type: "?", State: unknownState}
+			if len(ke.WatchEvents) == 1 && ke.Type == kemtypes.TypeEvent && ke.MonitorId == mc.Metadata.MonitorId {
+				f.Type = string(ke.WatchEvents[0])
+			}
+			if len(ke.Objects) == 1 {
+				f.State = stateOf(ke.Objects[0].Object)
+			}
+			o.Flushed = append(o.Flushed, f)
+		}
+		taken = len(events)
+		o.Unlocked = true
+	}
 	vm.M.Start(ctx)
 	n := len(pl.existing)
 	if !waitFor(n) {
@@ -458,6 +507,9 @@ func runStart(ctx context.Context, in Input, mc *kem.MonitorConfig) Obs {
 		time.Sleep(100 * time.Microsecond)
 	}
 	for k, op := range pl.cluster {
+		if in.Win && k == pl.unlockAt {
+			unlock()
+		}
 		var err error
 		switch op.kind {
 		case "create":
@@ -477,8 +529,33 @@ func runStart(ctx context.Context, in Input, mc *kem.MonitorConfig) Obs {
 			return finish()
 		}
 	}
+	if in.Win && pl.unlockAt >= len(pl.cluster) {
+		unlock()
+	}
 	vm.M.PauseHandleEvents()
 	return finish()
+}
+
+// rawCache reads resourceInformer.cachedObjects (an unexported field; no verif export returns it
+// without getCachedObjects' side effect on eventBuf) by reflection.
+func rawCache(ri interface{}) []kemtypes.ObjectAndFilterResult {
+	v := reflect.ValueOf(ri)
+	if v.Kind() != reflect.Ptr || v.IsNil() {
+		return nil
+	}
+	f := v.Elem().FieldByName("cachedObjects")
+	if !f.IsValid() || !f.CanAddr() {
+		return nil
+	}
+	m, ok := reflect.NewAt(f.Type(), unsafe.Pointer(f.UnsafeAddr())).Elem().Interface().(map[string]*kemtypes.ObjectAndFilterResult)
+	if !ok {
+		return nil
+	}
+	res := make([]kemtypes.ObjectAndFilterResult, 0, len(m))
+	for _, obj := range m {
+		res = append(res, *obj)
+	}
+	return res
 }
 
 // ---- generation ----
